@@ -538,8 +538,103 @@ func checkC11(c *gramCase, b *gram.Built, r *vstat.Run) outcome {
 	return outcome{}
 }
 
+// checkC11Derived: a parser derived for an inner production describes its nodes exactly like the grammar's own
+// parser does, whatever the two parsers have parsed before.
+func checkC11Derived(c *gramCase, b *gram.Built, r *vstat.Run) outcome {
+	lx, err := b.Lex(c.Input2)
+	if err != nil {
+		return outcome{}
+	}
+	var wantOK, expensive bool
+	var wantNode *gram.Node
+	m := gram.NewModel(b.G, lx.Toks)
+	func() {
+		defer func() {
+			if rec := recover(); rec != nil {
+				expensive = true
+			}
+		}()
+		wantOK, wantNode, _ = m.ParseProd(c.Derived)
+	}()
+	if expensive {
+		return outcome{}
+	}
+	var ast any
+	var perr error
+	var have bool
+	pm := guard(func() {
+		if !c.DerivedFirst {
+			_, _ = b.P.ParseString("f", c.Input)
+		}
+		ast, perr, have = gram.DerivedParse(b, c.Derived, c.Input2)
+		if c.DerivedFirst {
+			_, _ = b.P.ParseString("f", c.Input)
+			ast, perr, have = gram.DerivedParse(b, c.Derived, c.Input2)
+		}
+	})
+	if pm != "" || !have || (perr == nil) != wantOK {
+		if r != nil {
+			r.Count("derived_panic_or_acceptance_difference_left_to_C01_C06")
+		}
+		return outcome{}
+	}
+	if !wantOK {
+		if r != nil {
+			r.Count("rejected")
+		}
+		return outcome{}
+	}
+	if r != nil {
+		r.Eval()
+		r.Count("case_with_a_parser_derived_for_an_inner_production")
+	}
+	cmp := &gram.Comparer{B: b, L: lx, Positions: true}
+	cmp.Node(reflect.ValueOf(ast), wantNode, -1, "root")
+	if r != nil {
+		r.Add("nodes_checked", int64(cmp.PosNodes))
+		if cmp.PosNodes > 0 && cmp.ElidedAdj > 0 {
+			r.NonTrivial(mustJSON(c), func() any {
+				cc := *c
+				cc.Text = c.G.String()
+				return cc
+			})
+		}
+	}
+	var pmis []gram.Mismatch
+	for _, mm := range cmp.Mis {
+		if mm.Cat == "pos" || mm.Cat == "endpos" || mm.Cat == "tokens" {
+			pmis = append(pmis, mm)
+		}
+	}
+	if len(pmis) > 0 {
+		return violationf("positions", "a parser derived for production P%d (ParserForProduction) parsing %q: node positions / token lists differ from the text the node consumed:\n%s%s", c.Derived, c.Input2, fmtMis(pmis), describeCase(c))
+	}
+	return outcome{}
+}
+
 func TestC11(t *testing.T) {
 	runProp(t, "C11", c11Rule, func(t *rapid.T, r *vstat.Run) {
+		if rapid.IntRange(0, 11).Draw(t, "derived") == 0 {
+			// a family of named Go types: parsers for inner productions can be derived from the grammar's parser
+			sg := gram.StaticGrammars()
+			g := sg[len(sg)-1]
+			g.Lookahead = rapid.SampledFrom(gram.Lookaheads).Draw(t, "k")
+			es := g.Prof().ElideSets
+			g.Elide = es[rapid.IntRange(0, len(es)-1).Draw(t, "elideset")]
+			b, msg := buildGrammar(g)
+			if msg != "" {
+				r.Count("build_failed_left_to_C19")
+				return
+			}
+			c := &gramCase{G: g, Derived: rapid.IntRange(1, 2).Draw(t, "prod"), DerivedFirst: rapid.IntRange(0, 3).Draw(t, "derivedfirst") == 0}
+			c.Input = gram.Render(t, g, gram.GenInput(t, g), "r")
+			var toks []gram.VTok
+			fuel := 60
+			gram.Sample(t, g, g.Prods[c.Derived].Expr, &toks, &fuel)
+			c.Input2 = gram.Render(t, g, toks, "d")
+			report(t, r, checkC11Derived(c, b, r), c)
+			return
+		}
 		o := gram.GenOpts{MaxProds: 5, MaxDepth: 4, TrapPercent: 15, PosStyles: true, Profiles: true, Parseables: true, DeepEmbeds: true, NameElided: rapid.IntRange(0, 9).Draw(t, "named") == 0}
 		g := gram.GenGrammar(t, o)
 		b, msg := buildGrammar(g)
@@ -568,7 +663,12 @@ func TestC11(t *testing.T) {
 }
 
 func TestC11Replay(t *testing.T) {
-	replayGram(t, "C11", func(c *gramCase, b *gram.Built) outcome { return checkC11(c, b, nil) })
+	replayGram(t, "C11", func(c *gramCase, b *gram.Built) outcome {
+		if c.Derived > 0 {
+			return checkC11Derived(c, b, nil)
+		}
+		return checkC11(c, b, nil)
+	})
 }
 
 // ---------------------------------------------------------------------------------------------
